@@ -513,7 +513,7 @@ func c11Exec(raw json.RawMessage) (*Case, error) {
 			coqFault = "(FHandler 0)"
 		}
 
-		return runWatched(src, rec, quiet, 2*time.Second)
+		return runWatched(src, rec, quiet, fsHangWatch)
 	}
 	obs := runRetry(l, attempt)
 	hung := !obs.Returned
